@@ -142,11 +142,20 @@ def run_java_tlc(workdir, module, cfg, workers=1, timeout=600, heap="3g", extra=
     cmd += ["-cp", TLA_CP, "tlc2.TLC", "-workers", str(workers), "-metadir", os.path.join(workdir, "md-" + cfg.replace(".cfg", "")),
             "-config", cfg] + list(extra) + [module]
     t0 = time.time()
-    try:
-        p = subprocess.run(cmd, cwd=workdir, stdout=subprocess.PIPE, stderr=subprocess.STDOUT, text=True, timeout=timeout)
-    except subprocess.TimeoutExpired:
-        raise Infra("TLC timeout after %ds: %s %s" % (timeout, module, cfg))
-    return p.returncode, p.stdout, time.time() - t0
+    outp = os.path.join(workdir, "tlc-%s.out" % cfg.replace(".cfg", ""))
+    with open(outp, "w") as of:
+        try:
+            p = subprocess.run(cmd, cwd=workdir, stdout=of, stderr=subprocess.STDOUT, timeout=timeout)
+        except subprocess.TimeoutExpired:
+            last = ""
+            try:
+                prog = [ln for ln in open(outp, errors="replace") if ln.startswith("Progress(")]
+                last = prog[-1].strip() if prog else ""
+            except OSError:
+                pass
+            raise Infra("TLC timeout after %ds: %s %s %s" % (timeout, module, cfg, last))
+    out = open(outp, errors="replace").read()
+    return p.returncode, out, time.time() - t0
 
 
 def spec_dir(ctx, name):
